@@ -1210,3 +1210,9 @@ Qed.
 
 Lemma no_comfort_bookkeeping : forall cfg, c_comfort cfg = false -> forall t, this_ty cfg t = tInvalid.
 Proof. intros cfg H t. unfold this_ty. rewrite H. reflexivity. Qed.
+
+(* a quoted identifier is taken literally whatever the keyword table, the text operators and the operator table say *)
+Lemma quoted_ident_literal_lemma : forall ops tops kws cm cf mk letter number s,
+  nonul ops -> ~ In 0 s -> ~ In 39 s ->
+  tokenize (mkCfg ops tops kws cm cf mk letter number) (quoted_ident s) = [mkTok tIdent s 1].
+Proof. intros. apply quoted_ident_exact_lemma; assumption. Qed.
